@@ -95,6 +95,20 @@ Uses(items, top) ==
                      [] OTHER -> <<>>
        IN here \o Uses(Tail(items), top)
 
+(* A `use` item as written in library! is a tree:                          *)
+(*   [t |-> "name",  x |-> ident, kids |-> <<>>]        use .. ident        *)
+(*   [t |-> "path",  x |-> ident, kids |-> <<tree>>]    ident :: tree       *)
+(*   [t |-> "group", x |-> "",    kids |-> trees]       { tree, tree, .. }  *)
+(* The paths it names: every leaf prefixed by exactly the idents on the    *)
+(* way from the root of the tree to that leaf, in source order.            *)
+RECURSIVE ConcatAll(_)
+ConcatAll(ss) == IF ss = <<>> THEN <<>> ELSE Head(ss) \o ConcatAll(Tail(ss))
+RECURSIVE UsePaths(_)
+UsePaths(tr) ==
+  CASE tr.t = "name"  -> << <<tr.x>> >>
+    [] tr.t = "path"  -> LET s == UsePaths(tr.kids[1]) IN [i \in DOMAIN s |-> <<tr.x>> \o s[i]]
+    [] tr.t = "group" -> ConcatAll([i \in DOMAIN tr.kids |-> UsePaths(tr.kids[i])])
+
 (* mod / type / impl inside an impl block *)
 RECURSIVE NestedInImpl(_, _)
 NestedInImpl(items, inimpl) ==
